@@ -20,6 +20,7 @@ import (
 )
 
 type c01Node struct {
+	c      *vCase
 	nd     *vNode
 	router string
 	subs   []*c01Sub
@@ -31,6 +32,7 @@ type c01Node struct {
 }
 
 type c01Sub struct {
+	filter func(payload string) bool // the subscription's own message filter (nil: takes everything)
 	sub    *Subscription
 	cancel context.CancelFunc
 	mu     sync.Mutex
@@ -94,7 +96,7 @@ func (cn *c01Net) addNode(i int, router string) *c01Node {
 	if err != nil {
 		panic(err)
 	}
-	x := &c01Node{nd: nd, router: router}
+	x := &c01Node{nd: nd, router: router, c: cn.c}
 	cn.nodes = append(cn.nodes, x)
 	return x
 }
@@ -111,12 +113,31 @@ func (x *c01Node) handle() *Topic {
 }
 
 func (x *c01Node) subscribe() {
-	s, err := x.handle().Subscribe()
+	// subscription options: a buffer of its own size, a message filter of its own (it concerns this subscription only:
+	// the node's other subscriptions and everybody downstream still get the message)
+	var so []SubOpt
+	var filter func(string) bool
+	if x.c.Chance(0.3) {
+		so = append(so, WithBufferSize(x.c.Range(32, 300)))
+	}
+	if x.c.Chance(0.25) {
+		odd := x.c.Chance(0.5)
+		filter = func(payload string) bool {
+			var m int
+			if _, err := fmt.Sscanf(payload, "msg-%d-", &m); err != nil {
+				return true
+			}
+			return (m%2 == 1) == odd
+		}
+		so = append(so, WithMessageFilter(func(m *Message) bool { return filter(string(m.Data)) }))
+		x.c.Count("subscriptions_with_message_filter", 1)
+	}
+	s, err := x.handle().Subscribe(so...)
 	if err != nil {
 		panic(err)
 	}
 	ctx, cancel := context.WithCancel(context.Background())
-	cs := &c01Sub{sub: s, cancel: cancel, done: make(chan struct{})}
+	cs := &c01Sub{sub: s, filter: filter, cancel: cancel, done: make(chan struct{})}
 	x.subs = append(x.subs, cs)
 	go cs.run(ctx)
 }
@@ -602,6 +623,10 @@ func TestVerifC01Deliver(t *testing.T) {
 					for _, p := range pubs {
 						n := cnt[p.payload]
 						switch {
+						case s.filter != nil && !s.filter(p.payload):
+							if n > 0 {
+								c.Violatef(map[string]string{"kind": "filtered_message_delivered", "router": x.router}, "%s subscription %d received %q, which its own message filter refuses; %s", x.nd.name, si, p.payload, desc())
+							}
 						case p.ok && !strings.HasPrefix(p.payload, "REJECT") && n == 0:
 							cause := map[string]string{"kind": "message_not_delivered", "router": x.router, "publisher_router": cn.nodes[p.by].router}
 							if notConverged != "" {
